@@ -99,6 +99,7 @@ def gen_case(rnd, ctx, maxlen):
         init.append(d)
     ops = []
     ls = 0
+    clamp_only = [False]      # the only listener attached is the re-entrant "clamp" listener
     lens = {(i, "kids"): len(init[i]["kids"]) for i in range(n)}
     lens.update({(i, "nums"): len(init[i]["nums"]) for i in range(n)})
     for _ in range(rnd.randint(2, maxlen)):
@@ -106,15 +107,21 @@ def gen_case(rnd, ctx, maxlen):
         if r < 0.34:
             op = ["Read"]
         elif r < 0.40:
-            op = ["Listen", rnd.choice(["observe", "observe", "on_trait_change"])]
+            style = rnd.choice(["observe", "observe", "on_trait_change"])
+            if pname == "area" and ls == 0 and rnd.random() < 0.6:
+                style = "clamp"
+            clamp_only[0] = (style == "clamp" and ls == 0)
+            op = ["Listen", style]
             ls += 1
         elif r < 0.44 and ls > 0:
             op = ["Unlisten"]
             ls -= 1
+            clamp_only[0] = False
         elif r < 0.475:
             op = rnd.choice([["Copy", "pickle", rnd.randint(0, 5)], ["Copy", "deepcopy"], ["Copy", "clone"],
                              ["Copy", "shallow"]])
             ls = 0
+            clamp_only[0] = False
         else:
             # objects near the root and relevant traits are preferred
             i = rnd.choice([0, 0, 0] + list(range(n)))
@@ -125,6 +132,11 @@ def gen_case(rnd, ctx, maxlen):
             if tr in ("value", "other") and rnd.random() < 0.12:
                 ops.append(["Redeclare", i, tr])
                 ctx.count("op:Redeclare")
+                continue
+            if pname == "area" and tr == "value" and i == 0 and clamp_only[0] and rnd.random() < 0.5:
+                ops.append(["SetArm", 0, rnd.randint(0, 5), rnd.randint(0, 5)])
+                ops.append(["Nested"])
+                ctx.count("op:SetArm+Nested")
                 continue
             if tr == "raw":
                 ops.append(["SetRaw", 0, rnd.randrange(8)])
@@ -239,6 +251,11 @@ def corpus():
         cs.append(dict(prop="raw", cached=cached, n=2, init=dup,
                        ops=[["Read"], ["Listen"], ["SetRaw", 0, 1], ["Read"], ["SetRaw", 0, 2], ["Read"], ["SetRaw", 0, 0],
                             ["Read"], ["SetRaw", 0, 1], ["Read"], ["SetRaw", 0, 1], ["Read"], ["SetRaw", 0, 4], ["Read"]]))
+    # re-entrant history: a listener of the property assigns another dependency from inside the property's notification
+    for cached in (True, False):
+        cs.append(dict(prop="area", cached=cached, n=2, init=dup,
+                       ops=[["Read"], ["Listen", "clamp"], ["Set", 0, "value", 2], ["Read"], ["SetArm", 0, 4, 5], ["Nested"],
+                            ["Read"], ["Read"], ["SetArm", 0, 1, 0], ["Nested"], ["Read"], ["Set", 0, "other", 3], ["Read"]]))
     # unpickling: a static change handler reads the cached property while the state is being restored
     for proto in (0, 2, 5):
         cs.append(dict(prop="area", cached=True, n=2, init=dup,
